@@ -7,8 +7,9 @@
    there, see C09).
      encode / decode     model of the implementation (tied to the code by the correspondence run)
      spec_encode         the specification encoder
-     c10_class v t x     0, or the recorded difference class: 1 char8 >= 0x80, 2 wide string,
-                         3 XCDR1 optional member, 4 XCDR1 float128 (bytes agree, reader fails) *)
+     c10_class v t x     0, or the recorded difference class: 2 wide string, 3 XCDR1 optional member
+                         (the former classes 1 char8 >= 0x80 and 4 XCDR1 float128 reader were repaired
+                         in /repo: c6ffb24, 0b5427b) *)
 From DustDDS Require Import Base.Machine Xcdr.XcdrBytes Xcdr.XcdrModel Xcdr.XcdrProps Xcdr.XcdrProofs
   Xcdr.SpecEncode Xcdr.SpecProofs.
 Open Scope Z_scope.
@@ -21,21 +22,26 @@ Theorem C10_bytes_equal_and_decodable_partial : forall (v : ver) (e : endian) (t
   encode v e t x = Ok (spec_encode v e t x) /\ decode t (spec_encode v e t x) = Ok x.
 Proof. exact c10_outside_classes. Qed.
 
-(* the writer agrees with the specification encoder also for XCDR1 float128 (class 4 is a
-   reader defect only): equality on `common`, which does not exclude float128 *)
+(* the same on the structural subset `common` (no union, no mutable type, no wide string, no
+   XCDR1 optional member) without reference to the classes *)
 Theorem C10_bytes_equal_on_common : forall (v : ver) (e : endian) (t : ty) (x : val),
-  is_aggr t = true -> common v t = true -> wt t x = true -> val_nonascii_char x = false ->
-  encode v e t x = Ok (spec_encode v e t x).
-Proof. exact code_eq_spec. Qed.
+  is_aggr t = true -> common v t = true -> wt t x = true ->
+  encode v e t x = Ok (spec_encode v e t x) /\ decode t (spec_encode v e t x) = Ok x.
+Proof. intros. split; [now apply code_eq_spec|now apply spec_decodable]. Qed.
+
+(* the inputs of the two repaired differences (char8 0xE9; XCDR1 float128) agree and come back *)
+Theorem C10_repaired_inputs_agree :
+  (let t := TStruct Final [(mk 0, TPrim PChar8)] in let x := VData [(0, VP KChar8 233)] in
+   encode V2 LE t x = Ok (spec_encode V2 LE t x) /\ decode t (spec_encode V2 LE t x) = Ok x) /\
+  (let t := TStruct Final [(mk 0, TPrim PU64); (mk 1, TPrim PF128)] in
+   let x := VData [(0, VP KU64 7); (1, VP KF128 9)] in
+   encode V1 BE t x = Ok (spec_encode V1 BE t x) /\ decode t (spec_encode V1 BE t x) = Ok x).
+Proof. exact regression_c10. Qed.
 
 (* the recorded differences are real differences between the two encoders *)
 Theorem C10_wstring_differs :
   differs V2 LE (TStruct Final [(mk 0, TWStr)]) (VData [(0, VStr [97])]).
 Proof. exact diff_wstring. Qed.
-
-Theorem C10_char8_differs :
-  differs V2 LE (TStruct Final [(mk 0, TPrim PChar8)]) (VData [(0, VP KChar8 233)]).
-Proof. exact diff_char8. Qed.
 
 Theorem C10_xcdr1_optional_origin_differs :
   differs V1 LE (TStruct Final [(mko 0, TPrim PU8); (mk 1, TPrim PU64)])
@@ -51,5 +57,5 @@ Proof. repeat split; vm_compute; reflexivity. Qed.
 Print Assumptions C10_bytes_equal_and_decodable_partial.
 Print Assumptions C10_bytes_equal_on_common.
 Print Assumptions C10_wstring_differs.
-Print Assumptions C10_char8_differs.
+Print Assumptions C10_repaired_inputs_agree.
 Print Assumptions C10_xcdr1_optional_origin_differs.
